@@ -7,7 +7,8 @@
      the harness with eino's own concatenation) or "failed" (call-time error, error item —
      not distinguished: the property allows either).  Observed for the Invoke run and for
      the Stream run: which native implementation of every executed node was called
-     (only recorded, and only compared, when all four paradigms succeeded).
+     (only recorded, and only compared, when all four paradigms succeeded).  For graphs
+     without a fan-in the exact chunk lists of the Stream and the Transform run as well.
    * [CasePack]: one lambda packed by newRunnablePacker, its four views called directly
      (hook VerifPack): results, exact output chunk lists and the native used per view.
 
@@ -86,13 +87,16 @@ Inductive ccase : Type :=
 | CaseProg (sp : sprog) (chunks : list val)
            (oI oS oC oT : robs)
            (calls : option (list (N * N) * list (N * N)))   (* Invoke run, Stream run; sorted by node id *)
+           (schunks : option (list val * list val))
+             (* graphs without a fan-in (no merge, hence no scheduling freedom), all four
+                paradigms succeeded: the exact chunk lists Stream and Transform delivered *)
 | CasePack (sp : nspec) (chunks : list val)
            (oI : robs) (oS : sobs) (oC : robs) (oT : sobs)
            (used4 : list N).
 
 Definition bad (c : ccase) : bool :=
   match c with
-  | CaseProg sp chunks oI oS oC oT calls =>
+  | CaseProg sp chunks oI oS oC oT calls schunks =>
       let s := map Val chunks in
       let p := compile_sprog sp in
       match vsconcat s with
@@ -110,6 +114,12 @@ Definition bad (c : ccase) : bool :=
                    | Some (cv, cs) =>
                        nn_eqb (calls_canon (calls_value p x)) cv
                        && nn_eqb (calls_canon (calls_stream p x)) cs
+                   end
+                && match schunks with
+                   | None => true
+                   | Some (cs, ct) =>
+                       sobs_eqb (sobs_of (g_stream seq_mrg p x)) (SObs cs false)
+                       && sobs_eqb (sobs_of (g_transform seq_mrg p s)) (SObs ct false)
                    end)
       | _ => true   (* harness never sends an input that does not concatenate *)
       end
